@@ -46,25 +46,18 @@ def run(chk):
         cb = vlib.trace_validate(chk, "Trace_Introspection", "Trace_Introspection.cfg", can, 2, timeout=600, xmx="2g")
         flat = {b[0]: b[1] for b in cb}
         extra = [f for f in flat.get(2, []) if f not in flat.get(1, [])]
-        if not any(isinstance(f, list) and f[1][0] == "type-entry" and f[1][1] == t["name"] for f in extra):
+        if not any(f[1][0] == "type-entry" and f[1][1] == t["name"] for f in extra):
             chk.canary_failed.append("canary (isDeprecated of one field flipped): got %s" % extra)
     seen = set()
     n_known = 0
     for l, fails in bad:
         row = rows[l - 1]
         for f in fails:
-            if isinstance(f, list):
-                p = f[1]
-                if isinstance(p, list) and p[0] == "without-includeDeprecated":
-                    p = p[1]
-                    p = ["nodep-" + p[0]] + p[1:] if isinstance(p, list) else "nodep-" + p
-                cls = p[0] if isinstance(p, list) else p
-                if cls == "nodep-default-value-printed-as-written":
-                    cls = "default-value-printed-as-written"
-                detail = {"problem": p}
-            else:
-                cls = f
-                detail = {}
+            p = f[1]
+            cls = ("nodep-" if f[0] == "C24-nodep" else "") + p[0]
+            if cls == "nodep-default-value-printed-as-written":
+                cls = "default-value-printed-as-written"
+            detail = {"problem": p}
             key = cls if cls == "default-value-printed-as-written" else (cls, json.dumps(detail)[:80])
             if key in seen:
                 continue
